@@ -445,6 +445,14 @@ func (r *e1run) checkC04(si, k int) {
 			if dp.Skip != nil {
 				skipped = *dp.Skip
 			}
+			// the preload hint belongs to the live edge, which a delta update never skips: the same single hint as in the full
+			// playlist of the same instant
+			if len(dp.PreloadHints) != len(pl.PreloadHints) || (len(pl.PreloadHints) == 1 && (dp.PreloadHints[0].Type != pl.PreloadHints[0].Type || canon(dp.PreloadHints[0].URI) != canon(pl.PreloadHints[0].URI))) {
+				r.add("C04", "delta-preload-hint", "stream %s: a delta update (_HLS_skip=%s) carries %d preload hint(s), the full playlist of the same instant %d - or they name different parts (write %d)", s.id, skip, len(dp.PreloadHints), len(pl.PreloadHints), w)
+			}
+			if len(dp.Parts) != len(pl.Parts) {
+				r.add("C04", "delta-parts", "stream %s: a delta update (_HLS_skip=%s) lists %d parts of the open segment, the full playlist of the same instant %d (write %d)", s.id, skip, len(dp.Parts), len(pl.Parts), w)
+			}
 			if dp.MediaSequence != pl.MediaSequence {
 				r.add("C04", "delta-media-sequence", "stream %s: a delta update (_HLS_skip=%s) carries EXT-X-MEDIA-SEQUENCE %d, the full playlist of the same instant %d (write %d)", s.id, skip, dp.MediaSequence, pl.MediaSequence, w)
 			}
@@ -1014,7 +1022,7 @@ func (r *e1run) checkInit(k int) {
 				psOK = bytes.Equal(c.SPS, r.cfg.pset(t.Kind, par).sps) && bytes.Equal(c.PPS, r.cfg.pset(t.Kind, par).pps) && bytes.Equal(c.VPS, r.cfg.pset(t.Kind, par).vps)
 			case *fmp4.CodecAV1:
 				kindOK = t.Kind == "av1"
-				psOK = bytes.Equal(av1StripSizes([][]byte{c.SequenceHeader})[0], av1Params[par].seqHdr)
+				psOK = bytes.Equal(av1StripSizes([][]byte{c.SequenceHeader})[0], r.cfg.pset(t.Kind, par).seqHdr)
 			case *fmp4.CodecVP9:
 				kindOK = t.Kind == "vp9"
 				ps := r.cfg.pset("vp9", par)
